@@ -662,7 +662,7 @@ func search(c *enum.Ctx, base kase, depth int, states, trans, traces *atomic.Int
 }
 
 func run(c *enum.Ctx) {
-	c.Rule("initial objects: linear.Seq/QSeq for every letter string of length 0..3 (algebra-only for 4..5) over paired letters {a,c,G,n,-} (and RNA/redundant alphabets on fixed words), alignment.Seq/QSeq grids 1..3 rows x 0..4 columns, multi.Multi with every layout of 1..3 rows (offsets 0..2, lengths 1..3; plain and quality rows), multi.Set; then breadth-first search over operation sequences of depth <=3 (thorough 4; linear 4/5) over {RevComp, Reverse, Clone-and-continue-on-copy, Clone-and-keep, Set first, Set last, SetOffset, Delete row, Append (the letter depends on the step), go-on-with-the-other-copy, RevComp of the first / last row through its row view, Reverse of the first row}; three-row Multi layouts with an empty row; the size ladder 7..4097 (thorough 16385) - every 2^k-1, 2^k, 2^k+1 letters / columns / row length - for every kind under nine fixed operation lists; linear sequences also start emptied (length 0 over storage of two letters); after every operation the object's snapshot (row names, coordinates, strands, letters, qualities) is related to the previous one and every retained clone/original must be unchanged; states de-duplicated on the snapshot of the object plus retained copies (first two levels unmerged); non-trivial = every applicable operation sequence")
+	c.Rule("initial objects: linear.Seq/QSeq for every letter string of length 0..3 (algebra-only for 4..5) over paired letters {a,c,G,n,-} (and RNA/redundant alphabets on fixed words), alignment.Seq/QSeq grids 1..3 rows x 0..4 columns, multi.Multi with every layout of 1..3 rows (offsets 0..2, lengths 1..3; plain and quality rows), multi.Set; then breadth-first search over operation sequences of depth <=3 (thorough 4; linear 4/5) over {RevComp, Reverse, Clone-and-continue-on-copy, Clone-and-keep, Set first, Set last, SetOffset, Delete row, Append (the letter depends on the step), go-on-with-the-other-copy, RevComp of the first / last row through its row view, Reverse of the first row}; three-row Multi layouts with an empty row; objects all of whose rows lie at offsets of +-2^40 and just around +-2^31; the size ladder 7..4097 (thorough 16385) - every 2^k-1, 2^k, 2^k+1 letters / columns / row length - for every kind under nine fixed operation lists; linear sequences also start emptied (length 0 over storage of two letters); after every operation the object's snapshot (row names, coordinates, strands, letters, qualities) is related to the previous one and every retained clone/original must be unchanged; states de-duplicated on the snapshot of the object plus retained copies (first two levels unmerged); non-trivial = every applicable operation sequence")
 	c.Assume("column-stored alignments are used at offset 0 (their column accessors take raw indices)", "single Reverse is checked against its documented meaning (letters reversed); Multi row coordinates after Reverse are not constrained")
 	depthLin, depthOther := 4, 3
 	if !c.Quick {
@@ -781,6 +781,17 @@ func run(c *enum.Ctx) {
 				rows = []rowDef{{0, w}, {0, w2}}
 			case "multi", "mqulti":
 				rows = []rowDef{{0, w}, {1, w2[:n-3]}}
+			}
+			jobs = append(jobs, job{kase{Kind: kind, Alpha: "DNAgapped", Rows: rows}, -1})
+		}
+	}
+	// coordinates far from the origin (whole-genome offsets; beyond 32 bits, and just around 2^31 on
+	// either side of zero): every row of the object lies there
+	for _, base := range []int{1 << 40, -(1 << 40), 1<<31 - 2, 1 << 31, -(1 << 31) - 5, -(1 << 31) + 1} {
+		for _, kind := range []string{"multi", "mqulti", "lseq", "lqseq"} {
+			rows := []rowDef{{base, "acG"}}
+			if kind == "multi" || kind == "mqulti" {
+				rows = []rowDef{{base, "acG"}, {base + 2, "n-"}, {base + 1, "Gca"}}
 			}
 			jobs = append(jobs, job{kase{Kind: kind, Alpha: "DNAgapped", Rows: rows}, -1})
 		}
